@@ -61,7 +61,26 @@ UExit(e) ==
      /\ (e.code = 0) = (proceed /\ a.script.print = "ok")
      /\ e.code \in {0, 1}
   /\ a' = None /\ UNCHANGED reqs
-Step(e) == CASE e.ev = "ustart" -> UStart(e) [] e.ev = "ureq" -> UReq(e) [] e.ev = "uexit" -> UExit(e) [] OTHER -> FALSE
+(* ---- the single-exchange commands (status, cancel-job, get-job, purge-jobs, get-all-jobs) ---- *)
+OStart(e) == a' = e /\ reqs' = 0
+OCalls(e) == (IF e.user.has THEN <<[c |-> "user_name", s |-> e.user.s]>> ELSE <<>>)
+             \o (IF e.cmd = "status" THEN <<[c |-> "req_attrs", list |-> e.attrs]>> ELSE <<>>)
+OReq(e) ==
+  /\ a # None /\ reqs = 0
+  /\ e.method = "POST" /\ e.term = "end" /\ AllTokOK(e.toks)
+  /\ LET r == Reading(AbsToks(e.toks))
+         uriV == ObservedUri(r.v)
+         exp  == Build(a.op, OCalls(a), a.jobid, uriV)
+     IN /\ r.ok /\ e.hdr_ipp.ver = exp.ver /\ e.hdr_ipp.code = exp.code
+        /\ NormMsg(r.v) = NormMsg(exp.groups)
+        /\ uriV.k = "Uri" /\ IsCanonOf(e.puri, a.target)
+        /\ e.paylen = 0
+  /\ reqs' = 1 /\ UNCHANGED a
+OExit(e) == /\ a # None /\ reqs = 1 /\ (e.code = 0) = (a.reply = "ok") /\ e.code \in {0, 1}
+            /\ a' = None /\ UNCHANGED reqs
+
+Step(e) == CASE e.ev = "ostart" -> OStart(e) [] e.ev = "oreq" -> OReq(e) [] e.ev = "oexit" -> OExit(e)
+             [] e.ev = "ustart" -> UStart(e) [] e.ev = "ureq" -> UReq(e) [] e.ev = "uexit" -> UExit(e) [] OTHER -> FALSE
 Next == l <= Len(Rec) /\ Step(Rec[l]) /\ l' = l + 1
 Spec == Init /\ [][Next]_vars
 Accepted ==
